@@ -227,10 +227,7 @@ def rule_window_table(rep):
     rep.ob(R, "calculate_cutoff/variants", sorted(vs) == sorted(WINDOWS), "calculate_cutoff has coefficients for %s" % sorted(vs), loc(cf))
     # its closed form: 1 / (k1/n + k2/n^2 + k3/n^3 + 1)  (monotone in n, < 1)
     tail = cf["body"]["stmts"][-1]
-    env = {}
-    for s in cf["body"]["stmts"]:
-        if s["k"] == "let" and s["pat"]["k"] == "pident" and s.get("init") is not None:
-            env[s["pat"]["name"]] = s["init"]
+    env = ir.let_env(cf)
     alg = Alg(TypeEnv(locals_={cf["params"][0]["name"]: "int"}))
     expr = alg.conv(ir.subst(tail["e"], {k: v for k, v in env.items() if k in ("one", "npoints_t")}))
     n = alg.sym(cf["params"][0]["name"])
